@@ -47,14 +47,14 @@ theorem Src.ofNew {s : Sys} {a : Acct} {n : Node}
     kept := by
       intro n' hn' r hr
       simp only [sumMap_nil']
-      exact hT.kept a n' hn' r hr
+      exact (hT.addSub (a, n)).kept a n' hn' r hr
     kept_hand := fun hn' => absurd rfl (hf _ hn')
     ret3 := by
       intro n' hn' g hg
       rcases hT.ret3 a n' hn' g hg with h1 | h1
       · exact Or.inl h1
       · exact Or.inr (Or.inl h1)
-    retq := hT.retq a }
+    retq := (hT.addSub (a, n)).retq a }
 
 /-- the four counted quantities of a new submission after the sending client's step -/
 theorem new_pair {s : Sys} {a : Acct} {n : Node} (hA : AInv accts groups (abs s)) (hT : TV ex accts groups s.submitted (view s))
@@ -85,8 +85,8 @@ theorem new_pair {s : Sys} {a : Acct} {n : Node} (hA : AInv accts groups (abs s)
   rw [this]
   exact z3
 
-theorem appSend_TInv (hw : WFConfig accts groups) {s : Sys} {a : Acct} {n : Node}
-    (h : TInv ex accts groups s) (hall : Allowed s (.appSend a n) = true) (hlen : s.submitted.length < 100) :
+theorem appSend_TInv' (hw : WFConfig accts groups) {s : Sys} {a : Acct} {n : Node}
+    (h : TInv ex accts groups s) (hall : Allowed s (.appSend a n) = true) :
     TInv ex accts groups (step s (.appSend a n)) := by
   obtain ⟨hA, hT⟩ := h
   have hA' := step_inv hA hall
@@ -174,7 +174,7 @@ theorem appSend_TInv (hw : WFConfig accts groups) {s : Sys} {a : Acct} {n : Node
       rw [(new_pair hA hT hf c' out k (hneq r hr)).2.1, hclx]
       rcases hk3 with ⟨_, h2⟩ | h2
       · exact Or.inl (h2 r)
-      · exact Or.inr h2
+      · exact Or.inr (Or.inl h2)
     · intro g hgd
       rw [hclx]
       exact hr3 g hgd
@@ -192,8 +192,14 @@ theorem appSend_TInv (hw : WFConfig accts groups) {s : Sys} {a : Acct} {n : Node
     have e : (view s).cl a = getClient s a := rfl
     rw [e] at this
     omega
-  have hshort : (getClient s a).sentQueue.length < 100 := by
-    refine sentQueue_short (sub := s.submitted ++ [(a, n)]) (a := a) (n := n) ?_ ?_ hn1 (by simp; omega)
+  have hroom : (getClient s a).sentQueue.length < 100 ∨ 100 < (((view s).addSub (a, n)).submitted).length := by
+    by_cases h100 : (s.submitted ++ [(a, n)]).length ≤ 100
+    case neg =>
+      right
+      show 100 < (s.submitted ++ [(a, n)]).length
+      omega
+    left
+    refine sentQueue_short (sub := s.submitted ++ [(a, n)]) (a := a) (n := n) ?_ ?_ hn1 h100
     · intro i
       have h1 := hsrc.slot i
       unfold sendSlots handSlot at h1
@@ -227,11 +233,20 @@ theorem appSend_TInv (hw : WFConfig accts groups) {s : Sys} {a : Acct} {n : Node
       obtain ⟨sk, l, kct, hview, hs1, hs2, hk1, hk2, hk3, hk4, hl, hlnd⟩ :=
         view_sgws_first { s with submitted := s.submitted ++ [(a, n)] } a (getClient s a) n g [] hacc1
       show TV ex accts groups (s.submitted ++ [(a, n)]) (view (sendToGroupWithSessions _ a (getClient s a) n g [] 0))
-      rw [hview, enqueueSent_eq (c := { getClient s a with ownSK := sk }) n hshort]
+      obtain ⟨q, heq, hnq, hq1, hq2⟩ := enqueueSent_q { getClient s a with ownSK := sk } n
+      rw [hview, heq]
+      have hq1' : ∀ m ∈ (getClient s a).sentQueue, m ∈ q ∨ 100 < (((view s).addSub (a, n)).submitted).length := by
+        intro m hm
+        rcases hq1 m hm with h1 | h1
+        · exact Or.inl h1
+        · rcases hroom with h2 | h2
+          · exact absurd h1 (by show ¬ 100 ≤ (getClient s a).sentQueue.length; omega)
+          · exact Or.inr h2
       have hfm := freshMsg_group (id := n.id) (g := g) (im := n.payload.isMedia) (lo := s.nextCtr) (len := 0)
         hk1 (by rw [hk2]; rfl) hk3 (by simpa using hk4) (by simpa using hl) hlnd
       have hss := hsrc.toFirst hTa (fun _ _ => Or.inl rfl) (Or.inl rfl) sk (l ++ [(none, kct)]) (s.nextCtr + 0 + 1)
         (by show s.nextCtr ≤ _; omega) hs2 (fun g' hg' => by rw [hgd] at hg'; cases hg'; exact hs1) (by rw [hgd]; exact hfm)
+        q hnq hq1' hq2
       refine finish _ _ _ hss ?_ ?_ ?_ ?_
       · intro r _
         have := hcont0 r
@@ -240,8 +255,7 @@ theorem appSend_TInv (hw : WFConfig accts groups) {s : Sys} {a : Acct} {n : Node
         omega
       · intro r; exact hrc0 r
       · right
-        show n ∈ (getClient s a).sentQueue ++ [n]
-        simp
+        exact hnq
       · intro g' hg'
         rw [hgd] at hg'; cases hg'
         exact Or.inl hs1
@@ -249,7 +263,15 @@ theorem appSend_TInv (hw : WFConfig accts groups) {s : Sys} {a : Acct} {n : Node
     split
     · next hsess =>
       obtain ⟨se, hse⟩ := Option.isSome_iff_exists.mp hsess
-      rw [view_sendToContact _ _ _ _ _ se hacc1 hse, enqueueSent_eq n hshort]
+      obtain ⟨q, heq, hnq, hq1, hq2⟩ := enqueueSent_q (getClient s a) n
+      rw [view_sendToContact _ _ _ _ _ se hacc1 hse, heq]
+      have hq1' : ∀ m ∈ (getClient s a).sentQueue, m ∈ q ∨ 100 < (((view s).addSub (a, n)).submitted).length := by
+        intro m hm
+        rcases hq1 m hm with h1 | h1
+        · exact Or.inl h1
+        · rcases hroom with h2 | h2
+          · exact absurd h1 (by omega)
+          · exact Or.inr h2
       have hfm : FreshMsg s.nextCtr (s.nextCtr + 1) (.msg n.id n.dest none n.payload.isMedia
           [(none, { kind := if se.pendingPre then .pkmsg else .msg, sess := se.cur, ctr := s.nextCtr,
                     plain := { skdm := none, content := some n.payload }, corrupt := false })] none) := by
@@ -258,6 +280,7 @@ theorem appSend_TInv (hw : WFConfig accts groups) {s : Sys} {a : Acct} {n : Node
         split <;> simp
       have hss := hsrc.toFirst hTa (fun _ _ => Or.inl rfl) (Or.inl rfl) (getClient s a).ownSK _ (s.nextCtr + 1)
         (by show s.nextCtr ≤ _; omega) (fun _ h' => h') (fun g' hg' => by rw [hb] at hg'; cases hg') hfm
+        q hnq hq1' hq2
       refine finish _ _ _ hss ?_ ?_ ?_ ?_
       · intro r _
         have := hcont0 r
@@ -266,8 +289,7 @@ theorem appSend_TInv (hw : WFConfig accts groups) {s : Sys} {a : Acct} {n : Node
         omega
       · intro r; exact hrc0 r
       · right
-        show n ∈ (getClient s a).sentQueue ++ [n]
-        simp
+        exact hnq
       · intro g' hg'
         rw [hb] at hg'; cases hg'
     · next hnosess =>
@@ -285,6 +307,10 @@ theorem appSend_TInv (hw : WFConfig accts groups) {s : Sys} {a : Acct} {n : Node
       · left; simp
       · intro g' hg'
         rw [hb] at hg'; cases hg'
+
+theorem appSend_TInv (hw : WFConfig accts groups) {s : Sys} {a : Acct} {n : Node}
+    (h : TInv ex accts groups s) (hall : Allowed s (.appSend a n) = true) (_hlen : s.submitted.length < 100) :
+    TInv ex accts groups (step s (.appSend a n)) := appSend_TInv' hw h hall
 
 end
 
